@@ -126,6 +126,17 @@ pub fn run_specb(toks: &[&str]) -> String {
     observe(true, &sp, true)
 }
 
+/// a writer that swallows everything
+pub struct Sink;
+impl LogWriter for Sink {
+    fn write(&self, _now: &mut DeferredNow, _r: &log::Record) -> std::io::Result<()> {
+        Ok(())
+    }
+    fn flush(&self) -> std::io::Result<()> {
+        Ok(())
+    }
+}
+
 // ---------------------------------------------------------------- recording writers
 type Journal = Arc<Mutex<Vec<String>>>;
 struct Rec {
